@@ -13,3 +13,6 @@ for f in sorted(glob.glob(f'/verif/replays/{sys.argv[1]}-1-*.json')):
 PY
 done
 echo SWEEP-DONE >> $out
+# the checks above ran against a patched /repo and rewrote evidence / replays: put the committed evidence back
+git -C /verif checkout -- evidence 2>/dev/null
+rm -f /verif/replays/C*-1-*.json
